@@ -560,6 +560,83 @@ pub fn run(reg: &dyn Registry, ctx: &Ctx) -> Outcome {
             }
         }
     }
+    // ---------------- clone families ----------------
+    // A clone is another instance: whatever is done to it (outputs, jumps, set_rounds) must not change
+    // what the original returns afterwards, and vice versa.
+    {
+        let obs_of = |g: &mut Box<dyn Gen>, ops: &[Op]| -> Vec<String> { ops.iter().map(|o| apply(g, o).to_json().to_string()).collect() };
+        let mut families = 0u64;
+        for ty in &types {
+            let info = ty.info();
+            let seed = dense(*ty, 11);
+            let mut disturb = vec![Op::U64, Op::Fill(9), Op::U32];
+            if info.has_jump {
+                disturb.push(Op::Jump);
+                disturb.push(Op::LongJump);
+            }
+            let cont = vec![Op::U32, Op::U64, Op::Fill(5)];
+            for prefix in [vec![], vec![Op::U32], vec![Op::Fill(3), Op::U64]] {
+                let want = {
+                    let mut g = ty.from_seed(&seed);
+                    obs_of(&mut g, &prefix);
+                    obs_of(&mut g, &cont)
+                };
+                // disturb the clone, observe the original
+                let mut g = ty.from_seed(&seed);
+                obs_of(&mut g, &prefix);
+                let mut c = g.clone_box();
+                obs_of(&mut c, &disturb);
+                let got = obs_of(&mut g, &cont);
+                // disturb the original, observe the clone
+                let mut g2 = ty.from_seed(&seed);
+                obs_of(&mut g2, &prefix);
+                let mut c2 = g2.clone_box();
+                obs_of(&mut g2, &disturb);
+                let got_c = obs_of(&mut c2, &cont);
+                families += 2;
+                if got != want || got_c != want {
+                    ctx.violation(&format!("C19:{}:clone-family", info.name), &format!("{}: after {}, operations on {} changed what {} returns: {:?} instead of {:?}", info.name, crate::ops::ops_short(&prefix), if got != want { "a clone" } else { "the original" }, if got != want { "the original" } else { "the clone" }, if got != want { &got } else { &got_c }, want), json!({"kind":"note","type":info.name,"seed":hex(&seed),"prefix":ops_json(&prefix),"disturb":ops_json(&disturb)}));
+                    break;
+                }
+            }
+        }
+        // JitterRng: clones on identical independent timers; set_rounds / outputs / timer_stats on one member
+        for rounds in [1u8, 2] {
+            for prefix in [vec![], vec![Op::U32], vec![Op::U64, Op::U32]] {
+                for disturb in [vec![Op::SetRounds(5)], vec![Op::SetRounds(1), Op::U64], vec![Op::U64, Op::U32], vec![Op::TimerStats(true)], vec![Op::TestTimer]] {
+                    let cont = vec![Op::U64, Op::U32, Op::U32];
+                    let readings = jitter_env::raw_readings(ctx.seed ^ 0x19CF ^ rounds as u64, 2600);
+                    let mk = || {
+                        let mut g = reg.jitter_forking(TimerScript::new(readings.clone()));
+                        g.jitter().unwrap().set_rounds(rounds);
+                        g
+                    };
+                    // a clone that nobody touches, as the reference for "the clone alone"
+                    let (want_orig, want_clone) = {
+                        let mut g = mk();
+                        obs_of(&mut g, &prefix);
+                        let mut c = g.clone_box();
+                        (obs_of(&mut g, &cont), obs_of(&mut c, &cont))
+                    };
+                    let mut g = mk();
+                    obs_of(&mut g, &prefix);
+                    let mut c = g.clone_box();
+                    obs_of(&mut c, &disturb);
+                    let got_orig = obs_of(&mut g, &cont);
+                    let mut g2 = mk();
+                    obs_of(&mut g2, &prefix);
+                    let mut c2 = g2.clone_box();
+                    obs_of(&mut g2, &disturb);
+                    let got_clone = obs_of(&mut c2, &cont);
+                    families += 2;
+                    if got_orig != want_orig || got_clone != want_clone {
+                        ctx.violation("C19:JitterRng:clone-family", &format!("JitterRng (rounds {}): after {}, {} on {} changed what {} returns: {:?} instead of {:?}", rounds, crate::ops::ops_short(&prefix), crate::ops::ops_short(&disturb), if got_orig != want_orig { "a clone" } else { "the original" }, if got_orig != want_orig { "the original" } else { "the clone" }, if got_orig != want_orig { &got_orig } else { &got_clone }, if got_orig != want_orig { &want_orig } else { &want_clone }), json!({"kind":"note","rounds":rounds,"prefix":ops_json(&prefix),"disturb":ops_json(&disturb)}));
+                    }
+                }
+            }
+        }
+        ctx.set("clone_family_runs", families);
+    }
     // ---------------- operations overlapping in time ----------------
     // The timer of a JitterRng is user code too: while instance A waits inside its timer read number k,
     // instance B (another JitterRng, or a seeded generator) runs a whole operation — on the same thread
